@@ -175,7 +175,8 @@ def report_strategy():
                              "echo:Unknown command: \"M999\"", "start"]).map(
         lambda t: {"fam": "noise", "text": t})
     repeat = st.integers(0, 9).map(lambda i: {"fam": "repeat", "i": i})
-    return st.one_of(pos, pos, temp, temp, grbl, grbl, prb, noise, repeat, repeat)
+    return st.one_of(pos, pos, temp, temp, grbl, grbl, prb, noise, repeat, repeat,
+                     st.just({"fam": "other_writer"}))
 
 
 def make_callback():
@@ -190,7 +191,16 @@ def run_case(case, cl=None):
     w, cb = make_callback()
     latest = {}
     resolved = []
+    w_other, cb_other = None, None
     for i, rep in enumerate(case["reports"]):
+        if rep["fam"] == "other_writer":
+            # another writer object in the same process gets its own reports
+            if cb_other is None:
+                w_other, cb_other = make_callback()
+            cb_other(f"X:{900 + i}.5 Y:-{i}.25 Z:77 E:1 T:300 B:99 F:12345 S:1\n")
+            cb_other(f"<Run|MPos:{700 + i},701,702|FS:4321,9>\n")
+            cl.add("other_writer_got_reports")
+            continue
         if rep["fam"] == "repeat":
             # the device sends an earlier report again, byte for byte
             if not resolved:
